@@ -165,7 +165,11 @@ class _Rename(ast.NodeTransformer):
 def resolve(fn, roles, safe=None):
     """{canonical: actual} for the roles that identify exactly one local of fn."""
     out = {}
+    bound = {n.id for n in ast.walk(fn) if isinstance(n, ast.Name) and isinstance(n.ctx, ast.Store)}
     for canon, spec in roles.items():
+        if canon in bound:
+            out[canon] = canon      # the source still uses the canonical name: nothing to identify
+            continue
         alts = spec if isinstance(spec, list) else [spec]
         for alt in alts:
             c = set(_candidates(fn, alt))
